@@ -3,6 +3,7 @@
 Calls are resolved as: crate body (interpreted) | model (catalogue, models.py) | allow-listed effect-free call | UNMODELLED.
 An UNMODELLED call, an unparsable construct or an exceeded bound never counts as a pass: the driver maps them to exit 2.
 """
+import os
 import re
 import time
 import z3
@@ -328,6 +329,7 @@ class Interp:
         self.override = []        # (regex, fn) property-specific call overrides
         self.seed = 0
         self.feas_timeout_ms = 5000
+        self.deadline = time.time() + float(os.environ.get('VERIF_EXPLORE_LIMIT_S', '900' if os.environ.get('VERIF_TIER', 'quick') == 'quick' else '3600'))
         self.merge_pure = True
         self.event_mode = False
         self.cur_tid = 0
@@ -1081,6 +1083,8 @@ class Interp:
             st, fr, bb, visits = work.pop()
             if self.stats['paths'] + len(work) > self.max_paths:
                 raise Inconclusive('path budget exceeded in ' + body.name)
+            if time.time() > self.deadline:
+                raise Inconclusive('exploration time limit reached in ' + body.name)
             while True:
                 visits = dict(visits)
                 visits[bb] = visits.get(bb, 0) + 1
